@@ -394,15 +394,27 @@ class GuardFlow:
                                        {p: self.elements(a, st) for p, a in amap.items()}, {p: self.kind(a, st) for p, a in amap.items()}))
             else:
                 self.cur.calls.append((q, call, None, st.facts, {}, {}))
-        # list mutation
+        # list mutation (through any alias of the list value)
         f = call.func
         if isinstance(f, ast.Attribute) and isinstance(f.value, ast.Name):
+            tok = st.env.get(f.value.id)
+            lname = self.tok_list.get(tok, f.value.id)
             if f.attr == "append" and len(call.args) == 1:
-                self.cur.appends.setdefault(f.value.id, []).append((call.args[0], st.copy()))
-            elif f.attr in ("extend", "insert", "remove", "pop", "clear", "sort", "reverse", "__setitem__"):
-                self.cur.bad_lists.add(f.value.id)
-                tok = st.env.get(f.value.id)
+                self.cur.appends.setdefault(lname, []).append((call.args[0], st.copy()))
                 self.tok_elems.pop(tok, None)
+            elif f.attr in ("extend", "insert", "remove", "pop", "clear", "sort", "reverse", "__setitem__", "__iadd__"):
+                self.cur.bad_lists.add(lname)
+                self.tok_elems.pop(tok, None)
+        # a list handed to a helper of this module that appends to / rewrites its parameter
+        if q is not None and amap:
+            for p, a in amap.items():
+                if isinstance(a, ast.Name):
+                    tok = st.env.get(a.id)
+                    if tok in self.tok_list or tok in self.tok_elems:
+                        summ = self.summary(q)
+                        if summ is None or p in summ.get("mutates", ()):
+                            self.cur.bad_lists.add(self.tok_list.get(tok, a.id))
+                            self.tok_elems.pop(tok, None)
 
     def kind(self, e, st):
         return self.tok_kind.get(self.canon(e, st))
@@ -767,7 +779,8 @@ class GuardFlow:
                 vals = [(v, st) for v, st in res.returns if v is not None]
                 if vals:
                     elems = _meet_all([self.elements(v, st) for v, st in vals])
-            out = {"bool": {True: keep(bool_t), False: keep(bool_f)}, "elems": elems, "generator": bool(res.yields)}
+            out = {"bool": {True: keep(bool_t), False: keep(bool_f)}, "elems": elems, "generator": bool(res.yields),
+                   "mutates": (set(res.appends) | set(res.bad_lists)) & set(self.params(q))}
         finally:
             self._in_progress.discard(q)
             self.cur, self.boolvals, self.tok_kind, self.tok_list, self.tok_elems, self.local_elems = saved
@@ -799,9 +812,17 @@ class GuardFlow:
                     sites.setdefault(q, []).append((amap, facts, elems, kinds))
             # a function referenced other than as a call target may be called with anything
             new = {}
+            textual = {}
+            for n in ast.walk(self.mod.tree):
+                if isinstance(n, ast.Call):
+                    nm = n.func.id if isinstance(n.func, ast.Name) else (n.func.attr if isinstance(n.func, ast.Attribute) else None)
+                    if nm:
+                        textual[nm] = textual.get(nm, 0) + 1
             for q, ss in sites.items():
                 if not self.private(q) or any(s[0] is None for s in ss):
                     continue
+                if textual.get(q.split(".")[-1], 0) != len(ss):
+                    continue          # a call site the flow pass did not visit (nested function, lambda, decorator): no entry facts
                 ps = self.params(q)
                 facts_all = None
                 for amap, facts, elems, kinds in ss:
